@@ -8,6 +8,10 @@ LEVEL = 'model_checking'
 def run(ctx):
     ctx.assumptions = ['x/net Framer/hpack is the independent server peer', 'client loop hooks (verif build tag) give quiescence',
                        'request/response bodies are fixed functions of (request, offset)']
+    # goroutine-level model of Conn.Write against the write loop leaving (close(done) first, drain second); the code side
+    # is the write-storm scenario family
+    ctx.model_check('CliWriteExit', 'CliWriteExit.cfg', workers=1)
+    ctx.model_expect_violation('CliWriteExit', 'CliWriteExit_bad.cfg', 'AllResolved', workers=1)
     cliprop.run(ctx, 'C12')
     rtfam.run(ctx, {'C12'})
 
